@@ -1297,4 +1297,121 @@ def runChainS : List Step → Result → Except Err Result
     | .ok r' => runChainS ss r'
     | .error e => .error e
 
+/-! ## Phase 5: Python's `sorted` on the x labels *inside* the model (no order handed over by the harness) -/
+
+/-- the Python value of an x label (`labs`: the `makex` pair of the model -> the value that `sorted(XY.items())`
+compares: the parameter value itself, or the string `f"{x2}-{x1}"`) -/
+def labOf (labs : List ((Key × Key) × PyVal)) (k : Key × Key) : PyVal :=
+  match labs.find? (fun e => e.1 = k) with
+  | some e => e.2
+  | none => .none
+
+/-- `sorted(XY.items())` for a parameter x: CPython's `list.sort` (`pySorted`) over the labels — `TypeError` and all —,
+each sorted label then taken back to its entry -/
+def orderRawPy (labs : List ((Key × Key) × PyVal)) (raw : List ((Key × Key) × List (Rat × Rat))) :
+    Except Err (List ((Key × Key) × List (Rat × Rat))) :=
+  match pySorted (raw.map (fun e => labOf labs e.1)) with
+  | .error e => .error e
+  | .ok vs => .ok (vs.filterMap (fun v => raw.find? (fun e => labOf labs e.1 = v)))
+
+/-- `raw_contrast` including its final `X,Y = zip(*sorted(XY.items()))`: ascending index for `x='index'`, otherwise
+Python's sort of the labels as Python values (mixed-type x columns included: `TypeError` iff `pySorted` raises) -/
+def rawContrastPyWith (vals : Result → List Col → XSpec → Option Nat → List (Triple × List IRow) → Except Err (List ((Key × Key) × Rat)))
+    (r : Result) (sels1 sels2 : List (List (Tbl × Option Nat × Int))) (pc : List Col) (x : XSpec) (span : Option Nat)
+    (labs : List ((Key × Key) × PyVal)) : Except Err (List ((Key × Key) × List (Rat × Rat))) :=
+  match rawContrastWith vals r sels1 sels2 pc x span true with
+  | .error e => .error e
+  | .ok raw => if x = .index then .ok (sortX raw) else orderRawPy labs raw
+
+def rawContrastPy := rawContrastPyWith allEntries
+def rawContrastPyS := rawContrastPyWith allEntriesS
+
+/-- `plot_contrast` before drawing, over the table that `raw_contrast` itself sorted -/
+def plotContrastPyWith (vals : Result → List Col → XSpec → Option Nat → List (Triple × List IRow) → Except Err (List ((Key × Key) × Rat)))
+    (r : Result) (sels1 sels2 : List (List (Tbl × Option Nat × Int))) (pc : List Col) (x : XSpec) (span : Option Nat)
+    (labs : List ((Key × Key) × PyVal)) (mode : CMode) (ci : Option CiFn) (errevery : Option Nat)
+    (kind : XKind) : Except Err (List (List CPoint)) :=
+  match rawContrastPyWith vals r sels1 sels2 pc x span labs with
+  | .error e => .error e
+  | .ok tbl =>
+    match contrastPointsFrom mode ci (errEveryOf (x = .index) errevery (lastIndexOf tbl)) 0 tbl with
+    | .error e => .error e
+    | .ok pts => .ok (contrastLines kind (boundaryOf mode) pts)
+
+def plotContrastPy := plotContrastPyWith allEntries
+def plotContrastPyS := plotContrastPyWith allEntriesS
+
+/-! ## Phase 5, goal 2: `int(n*0.05)` on binary64 under a rounding law -/
+
+/-- the binary64 value of the literal `0.05`: `3602879701896397 / 2^56` (= `1/20 + 1/(5·2^56)`) -/
+def c05 : Rat := 3602879701896397 / 72057594037927936
+
+/-- a binary64 value `m / 2^e` with a 53-bit significand (non-positive exponents suffice here) -/
+def Repr53 (y : Rat) : Prop := ∃ (m : Int) (e : Nat), m.natAbs < 9007199254740992 ∧ y = (m : Rat) / ((2 ^ e : Nat) : Rat)
+
+/-- what is used of IEEE round-to-nearest (any tie rule): rounding never crosses a representable value, and the
+rounded value is not farther above `x` than a representable value below `x` is below it.  All three follow from
+"`fl x` is a representable value nearest to `x`". -/
+structure FloatLaw (fl : Rat → Rat) : Prop where
+  below : ∀ x y, Repr53 y → y ≤ x → y ≤ fl x
+  above : ∀ x y, Repr53 y → x ≤ y → fl x ≤ y
+  near : ∀ x y, Repr53 y → y ≤ x → fl x - x ≤ x - y
+
+/-- the boundary below which `int(n*0.05) = n // 20` holds: `3·2^51` -/
+def int005Bound : Nat := 6755399441055744
+
+/-- the `errevery` default as the driver evaluates it for the correspondence: `max(int(n*0.05),1)` modelled as `max (n/20) 1` -/
+def errEveryDefault (n : Nat) : Nat := errEveryOf true none n
+
+/-! ### defaults of the analysis functions and the `_confidence` dispatch, as model and harness assume them
+(`Generated/C18Defaults.lean` holds what `ast` extracts from the current source; `Props/C18.lean` proves them equal) -/
+
+/-- (function, parameter, `repr` of the default): pairing by environments, levels = learners, `x='index'` for learners and
+`'environment_id'` for contrasts, `mode='diff'`, no span, no error bars, `where_fin` without pairing unless asked -/
+def analysisDefaultsM : List (String × String × String) :=
+  [ ("filter_best", "y", "'reward'"),
+    ("filter_best", "n", "None"),
+    ("filter_best", "full_l", "'learner_id'"),
+    ("filter_best", "full_p", "'environment_id'"),
+    ("filter_fin", "n", "None"),
+    ("filter_fin", "l", "None"),
+    ("filter_fin", "p", "None"),
+    ("where_best", "p", "None"),
+    ("where_best", "y", "'reward'"),
+    ("where_best", "n", "None"),
+    ("where_best", "full_l", "'learner_id'"),
+    ("where_best", "full_p", "'environment_id'"),
+    ("where_fin", "n", "None"),
+    ("where_fin", "l", "None"),
+    ("where_fin", "p", "None"),
+    ("raw_learners", "x", "'index'"),
+    ("raw_learners", "y", "'reward'"),
+    ("raw_learners", "l", "'full_name'"),
+    ("raw_learners", "p", "'environment_id'"),
+    ("raw_learners", "span", "None"),
+    ("raw_contrast", "x", "'environment_id'"),
+    ("raw_contrast", "y", "'reward'"),
+    ("raw_contrast", "l", "'learner_id'"),
+    ("raw_contrast", "p", "'environment_id'"),
+    ("raw_contrast", "span", "None"),
+    ("plot_learners", "x", "'index'"),
+    ("plot_learners", "y", "'reward'"),
+    ("plot_learners", "l", "'full_name'"),
+    ("plot_learners", "p", "'environment_id'"),
+    ("plot_learners", "span", "None"),
+    ("plot_learners", "err", "None"),
+    ("plot_learners", "errevery", "None"),
+    ("plot_contrast", "x", "'environment_id'"),
+    ("plot_contrast", "y", "'reward'"),
+    ("plot_contrast", "l", "'learner_id'"),
+    ("plot_contrast", "p", "'environment_id'"),
+    ("plot_contrast", "mode", "'diff'"),
+    ("plot_contrast", "span", "None"),
+    ("plot_contrast", "err", "None"),
+    ("plot_contrast", "errevery", "None") ]
+
+/-- `_confidence`: which interval object each `err` string selects, in dispatch order -/
+def confDispatchM : List (String × String) :=
+  [("se", "StdErrCI"), ("bs", "BootstrapCI"), ("bi", "BinomialCI"), ("sd", "StdDevCI")]
+
 end Coba.C18
